@@ -21,10 +21,14 @@ Record SInv (s : sess) : Prop := {
             rcause s = false /\ wfail s = false /\ peer_open s = true /\ wsend s = false /\
             (exited s = true -> concat (accepted s) = inbox s);
   i_lclosed : lclosed s = true -> qclosed s = true;
-  i_wsend : wsend s = true -> wfail s = true /\ (sendl s = true -> has_data (q s) = true)
+  i_wsend : wsend s = true -> wfail s = true /\ (sendl s = true -> has_data (q s) = true);
+  i_peer : peer_open s = false -> rcause s = true;
+  i_qc : qclosed s = true -> lclosed s = true \/ exited s = true;
+  i_cause : exited s = true -> rcause s = true \/ lclosed s = true \/ wfail s = true;   (* no exit without something that was asked for *)
+  i_amb : amb (hx s) = false -> exited s = true -> exit_h (hx s) = hid (hx s)             (* the handler told is the one in charge *)
 }.
 
-Lemma fresh_inv t r : SInv (fresh t r).
+Lemma fresh_inv t r h : SInv (fresh t r h).
 Proof.
   constructor; cbn; try discriminate; auto.
   - intros [H|H]; discriminate.
@@ -39,12 +43,12 @@ Proof. rewrite concat_app. cbn. now rewrite app_nil_r. Qed.
 Definition flag_ok (s s' : sess) (d : bool) : Prop :=
   started s' = started s /\ if d then exited s = false /\ exited s' = true else exited s' = exited s.
 
-Ltac des s := destruct s as [t st q0 qc co sl rl ex oe wf rc po pr rv ib ac cl lc ws].
+Ltac des s := destruct s as [t st q0 qc co sl rl ex oe wf rc po pr rv ib ac cl lc ws [hi he ha]].
 Ltac fin := constructor; cbn in *; intros; try solve [intuition (auto; try discriminate; try congruence)].
 
 Lemma inv_recvend s s' d : SInv s -> sess_step s RecvEnd = Some (s', d) -> SInv s' /\ flag_ok s s' d.
 Proof.
-  intros I H. des s. destruct I as [I1 I2 I3 I4 I5 I6 I7 I8 I9]. unfold flag_ok. cbn in *.
+  intros I H. des s. destruct I as [I1 I2 I3 I4 I5 I6 I7 I8 I9 J1 J2 J3 J4]. unfold flag_ok. cbn in *.
   destruct rl; cbn in H; [|discriminate].
   destruct (rc || negb co) eqn:E; [|discriminate].
   unfold leave_recv, quit in H; cbn in H. destruct ex; inversion H; subst; clear H; cbn.
@@ -54,7 +58,7 @@ Qed.
 
 Lemma inv_sendstep s s' d : SInv s -> sess_step s SendStep = Some (s', d) -> SInv s' /\ flag_ok s s' d.
 Proof.
-  intros I H. des s. destruct I as [I1 I2 I3 I4 I5 I6 I7 I8 I9]. unfold flag_ok. cbn in *.
+  intros I H. des s. destruct I as [I1 I2 I3 I4 I5 I6 I7 I8 I9 J1 J2 J3 J4]. unfold flag_ok. cbn in *.
   destruct sl; cbn in H; [|discriminate].
   destruct q0 as [|x r].
   - (* empty queue *)
@@ -72,7 +76,8 @@ Proof.
         destruct ex; inversion H; subst; clear H; cbn.
         -- split; [|auto]. fin.
         -- split; [|auto]. specialize (I3 eq_refl). subst co. fin.
-           destruct I7 as (A & B & C & E' & F); auto. subst wf po. cbn in E. discriminate.
+           ++ destruct I7 as (A & B & C & E' & F); auto. subst wf po. cbn in E. discriminate.
+           ++ destruct wf; [auto|]. cbn in E. apply negb_true_iff in E. subst po. left. apply J1. reflexivity.
       * (* the write succeeds if the peer reads *)
         destruct pr; [|discriminate]. inversion H; subst; clear H; cbn.
         apply orb_false_elim in E as [E E4]. apply orb_false_elim in E as [E2 E3].
@@ -84,7 +89,7 @@ Qed.
 
 Lemma inv_sendlost s s' d : SInv s -> sess_step s SendLost = Some (s', d) -> SInv s' /\ flag_ok s s' d.
 Proof.
-  intros I H. des s. destruct I as [I1 I2 I3 I4 I5 I6 I7 I8 I9]. unfold flag_ok. cbn in *.
+  intros I H. des s. destruct I as [I1 I2 I3 I4 I5 I6 I7 I8 I9 J1 J2 J3 J4]. unfold flag_ok. cbn in *.
   destruct sl; cbn in H; [|discriminate].
   destruct q0 as [|x r]; [discriminate|].
   destruct (negb (is_nil x) && co && negb wf && negb po && is_tcp t) eqn:E; [|discriminate].
@@ -96,7 +101,7 @@ Qed.
 
 Lemma inv_send s bs ok s' d : SInv s -> sess_step s (Send bs ok) = Some (s', d) -> SInv s' /\ flag_ok s s' d.
 Proof.
-  intros I H. des s. destruct I as [I1 I2 I3 I4 I5 I6 I7 I8 I9]. unfold flag_ok. cbn in *.
+  intros I H. des s. destruct I as [I1 I2 I3 I4 I5 I6 I7 I8 I9 J1 J2 J3 J4]. unfold flag_ok. cbn in *.
   destruct (Bool.eqb ok (negb qc)) eqn:E; [|discriminate]. apply eqb_prop in E. subst ok.
   destruct qc; cbn in H; inversion H; subst; clear H; cbn.
   - split; [fin|auto].
@@ -111,13 +116,17 @@ Proof.
 Qed.
 
 Lemma inv_other s a s' d : SInv s ->
-  match a with LocalClose | StartAgain | PeerClose | PeerRead | PeerByte | RecvFault _ | WriteFault _ => True | _ => False end ->
+  match a with LocalClose | StartAgain | SetHandler _ | PeerClose | PeerRead | PeerByte | RecvFault _ | WriteFault _ => True | _ => False end ->
   sess_step s a = Some (s', d) -> SInv s' /\ flag_ok s s' d.
 Proof.
-  intros I Ha H. des s. destruct I as [I1 I2 I3 I4 I5 I6 I7 I8 I9]. unfold flag_ok.
+  intros I Ha H. des s. destruct I as [I1 I2 I3 I4 I5 I6 I7 I8 I9 J1 J2 J3 J4]. unfold flag_ok.
   destruct a; try contradiction; cbn in *.
   - inversion H; subst; clear H; cbn. split; [fin|auto].
   - inversion H; subst; clear H; cbn. split; [fin|auto].
+  - (* UpdateHandler *)
+    inversion H; subst; clear H; cbn. split; [|auto]. fin.
+    exfalso. apply orb_false_elim in H as [H Hw]. apply orb_false_elim in H as [H Hl]. apply orb_false_elim in H as [_ Hr].
+    destruct (J3 H0) as [X|[X|X]]; congruence.
   - destruct po; [|discriminate]. inversion H; subst; clear H; cbn. split; [fin|auto].
   - destruct (po && negb pr); [|discriminate]. inversion H; subst; clear H; cbn. split; [fin|auto].
   - destruct po; [|discriminate]. destruct (rl && negb rc && co); inversion H; subst; clear H; cbn; (split; [fin|auto]).
@@ -137,6 +146,7 @@ Proof.
   - eapply inv_other; eauto; exact Logic.I.
   - eapply inv_other; eauto; exact Logic.I.
   - eapply inv_other; eauto; exact Logic.I.
+  - eapply inv_other; eauto; exact Logic.I.
   - eapply inv_sendstep; eauto.
   - eapply inv_sendlost; eauto.
   - eapply inv_recvend; eauto.
@@ -148,9 +158,17 @@ Definition Inv1 (s : sess) : Prop := if started s then SInv s else s = rejected.
 Definition live (s : sess) : Z := if started s && negb (exited s) then 1 else 0.
 Fixpoint total (l : list sess) : Z := match l with [] => 0 | s :: r => live s + total r end.
 
+(* the accept goroutine *)
+Record AInv (t : st) : Prop := {
+  a_dead : aloop (al t) = false -> sclosed (al t) = true \/ (amax (al t) <= aretry (al t))%nat;   (* it ends only by Close or by exhausting its retries *)
+  a_closed : sclosed (al t) = true -> aloop (al t) = false;
+  a_fresh : aloop (al t) = true -> pend t = 0%nat -> aretry (al t) = 0%nat
+}.
+
 Record GInv (c0 : Z) (t : st) : Prop := {
   g_cnt : cnt t = c0 + total (ss t);          (* the count is its initial value plus the sessions started and not yet exited *)
-  g_all : Forall Inv1 (ss t)
+  g_all : Forall Inv1 (ss t);
+  g_al : AInv t
 }.
 
 Lemma live_range s : 0 <= live s <= 1.
@@ -185,29 +203,48 @@ Proof.
   - rewrite Hd. lia.
 Qed.
 
-Lemma init_ginv m c0 : GInv c0 (init m c0).
-Proof. constructor; cbn; [lia|constructor]. Qed.
+Lemma init_ginv m c0 r : GInv c0 (init m c0 r).
+Proof. constructor; cbn; [lia|constructor|]. constructor; cbn; auto; discriminate. Qed.
 
 Lemma rejected_inv1 : Inv1 rejected.
 Proof. reflexivity. Qed.
-Lemma fresh_inv1 t r : Inv1 (fresh t r).
+Lemma fresh_inv1 t r h : Inv1 (fresh t r h).
 Proof. unfold Inv1. cbn. apply fresh_inv. Qed.
 
 Theorem step_ginv c0 t l t' : GInv c0 t -> step t l = Some t' -> GInv c0 t' /\ maxc t' = maxc t.
 Proof.
-  intros [Hc Ha] H. destruct l as [i trp reads|i|i|i a]; cbn [step] in H.
-  - destruct (Nat.eqb i (length (ss t)) && Nat.eqb (pend t) 0); [|discriminate]. inversion H; subst; clear H. cbn. split; [|reflexivity].
+  intros [Hc Ha [A1 A2 A3]] H. destruct l as [i trp reads h0|i|i| | | | |i a]; cbn [step] in H.
+  - destruct (Nat.eqb i (length (ss t)) && Nat.eqb (pend t) 0) eqn:E; [|discriminate]. apply andb_prop in E as [_ E]. apply Nat.eqb_eq in E.
+    inversion H; subst; clear H. cbn. split; [|reflexivity].
     constructor; cbn.
     + rewrite total_app. cbn. lia.
     + apply Forall_app. split; [exact Ha|]. constructor; [apply fresh_inv1|constructor].
+    + constructor; cbn; auto.
   - destruct (Nat.eqb i (length (ss t) + pend t)); [|discriminate]. inversion H; subst; clear H. cbn. split; [|reflexivity].
-    constructor; cbn; auto.
-  - destruct (Nat.eqb i (length (ss t)) && negb (Nat.eqb (pend t) 0)); [|discriminate].
+    constructor; cbn; auto. constructor; cbn; auto. discriminate.
+  - destruct (Nat.eqb i (length (ss t)) && negb (Nat.eqb (pend t) 0) && aloop (al t) && negb (fdlim (al t))) eqn:E; [|discriminate].
+    apply andb_prop in E as [E _]. apply andb_prop in E as [_ E].
+    assert (AI : forall p, AInv (mkSt (maxc t) p (ss t) (pred (pend t)) (set_aretry (al t) 0%nat)) -> True) by auto.
     destruct (maxc t <=? cnt t); inversion H; subst; clear H; cbn; (split; [|reflexivity]); constructor; cbn.
     + rewrite total_app. cbn. lia.
     + apply Forall_app. split; [exact Ha|]. constructor; [apply rejected_inv1|constructor].
+    + constructor; cbn; auto. congruence.
     + rewrite total_app. cbn. lia.
     + apply Forall_app. split; [exact Ha|]. constructor; [apply fresh_inv1|constructor].
+    + constructor; cbn; auto. congruence.
+  - (* a temporary error of Accept *)
+    destruct (negb (Nat.eqb (pend t) 0) && aloop (al t) && fdlim (al t)) eqn:E; [|discriminate].
+    apply andb_prop in E as [E _]. apply andb_prop in E as [Ep El]. apply negb_true_iff, Nat.eqb_neq in Ep.
+    inversion H; subst; clear H. cbn. split; [|reflexivity]. constructor; cbn; auto.
+    destruct (Nat.leb (amax (al t)) (S (aretry (al t)))) eqn:Em; constructor; cbn; auto.
+    + intros _. right. apply Nat.leb_le. exact Em.
+    + discriminate.
+    + congruence.
+    + intros _ X. congruence.
+  - destruct (fdlim (al t)); [discriminate|]. inversion H; subst; clear H. cbn. split; [|reflexivity]. constructor; cbn; auto. constructor; cbn; auto.
+  - destruct (fdlim (al t)); [|discriminate]. inversion H; subst; clear H. cbn. split; [|reflexivity]. constructor; cbn; auto. constructor; cbn; auto.
+  - destruct (Nat.eqb (pend t) 0); [|discriminate]. inversion H; subst; clear H. cbn. split; [|reflexivity]. constructor; cbn; auto.
+    constructor; cbn; auto. discriminate.
   - destruct (nth_error (ss t) i) as [s|] eqn:En; [|discriminate].
     destruct (started s) eqn:St; [|discriminate].
     destruct (sess_step s a) as [[s' d]|] eqn:Es; [|discriminate]. inversion H; subst; clear H. cbn.
@@ -215,6 +252,29 @@ Proof.
     destruct (sess_step_inv _ _ _ _ I Es) as [I' F]. split; [|reflexivity]. constructor; cbn.
     + rewrite (total_upd _ _ _ s' En), (flag_live _ _ _ F St). destruct d; lia.
     + apply Forall_upd; [exact Ha|]. unfold Inv1. destruct F as [F _]. rewrite F, St. exact I'.
+    + constructor; cbn; auto.
+Qed.
+
+Lemma step_amax t l t' : step t l = Some t' -> amax (al t') = amax (al t).
+Proof.
+  intros H. destruct l as [i trp reads h0|i|i| | | | |i a]; cbn [step] in H.
+  - destruct (Nat.eqb i (length (ss t)) && Nat.eqb (pend t) 0); [|discriminate]. now inversion H.
+  - destruct (Nat.eqb i (length (ss t) + pend t)); [|discriminate]. now inversion H.
+  - destruct (Nat.eqb i (length (ss t)) && negb (Nat.eqb (pend t) 0) && aloop (al t) && negb (fdlim (al t))); [|discriminate].
+    destruct (maxc t <=? cnt t); now inversion H.
+  - destruct (negb (Nat.eqb (pend t) 0) && aloop (al t) && fdlim (al t)); [|discriminate]. inversion H; subst. cbn.
+    destruct (Nat.leb (amax (al t)) (S (aretry (al t)))); reflexivity.
+  - destruct (fdlim (al t)); [discriminate|]. now inversion H.
+  - destruct (fdlim (al t)); [|discriminate]. now inversion H.
+  - destruct (Nat.eqb (pend t) 0); [|discriminate]. now inversion H.
+  - destruct (nth_error (ss t) i) as [s|]; [|discriminate]. destruct (started s); [|discriminate].
+    destruct (sess_step s a) as [[s' d]|]; [|discriminate]. now inversion H.
+Qed.
+
+Lemma run_amax ls : forall t t', run t ls = Some t' -> amax (al t') = amax (al t).
+Proof.
+  induction ls as [|l ls IH]; intros t t' H; cbn in H; [now inversion H|].
+  destruct (step t l) as [t1|] eqn:E; [|discriminate]. rewrite (IH _ _ H). exact (step_amax _ _ _ E).
 Qed.
 
 Theorem run_ginv c0 ls : forall t t', GInv c0 t -> run t ls = Some t' -> GInv c0 t' /\ maxc t' = maxc t.
@@ -226,16 +286,20 @@ Proof.
 Qed.
 
 (* ---- the bound: only the accept loop starts sessions ---- *)
-Definition not_start (l : label) : bool := match l with Start _ _ _ => false | _ => true end.
+Definition not_start (l : label) : bool := match l with Start _ _ _ _ => false | _ => true end.
 
 Lemma step_bound c0 t l t' : GInv c0 t -> 0 <= c0 -> step t l = Some t' -> not_start l = true ->
   cnt t <= Z.max c0 (maxc t) -> cnt t' <= Z.max c0 (maxc t').
 Proof.
   intros G H0 H Hn Hb. destruct (step_ginv _ _ _ _ G H) as [G' M]. rewrite M.
-  destruct l as [i trp reads|i|i|i a]; cbn [step] in H; [discriminate| | |].
+  destruct l as [i trp reads h0|i|i| | | | |i a]; cbn [step] in H; [discriminate| | | | | | |].
   - destruct (Nat.eqb i (length (ss t) + pend t)); [|discriminate]. inversion H; subst; clear H; cbn in *. lia.
-  - destruct (Nat.eqb i (length (ss t)) && negb (Nat.eqb (pend t) 0)); [|discriminate].
+  - destruct (Nat.eqb i (length (ss t)) && negb (Nat.eqb (pend t) 0) && aloop (al t) && negb (fdlim (al t))); [|discriminate].
     destruct (maxc t <=? cnt t) eqn:E; inversion H; subst; clear H; cbn in *; [lia|]. apply Z.leb_gt in E. lia.
+  - destruct (negb (Nat.eqb (pend t) 0) && aloop (al t) && fdlim (al t)); [|discriminate]. inversion H; subst; clear H; cbn in *. lia.
+  - destruct (fdlim (al t)); [discriminate|]. inversion H; subst; clear H; cbn in *. lia.
+  - destruct (fdlim (al t)); [|discriminate]. inversion H; subst; clear H; cbn in *. lia.
+  - destruct (Nat.eqb (pend t) 0); [|discriminate]. inversion H; subst; clear H; cbn in *. lia.
   - destruct (nth_error (ss t) i) as [s|]; [|discriminate]. destruct (started s); [|discriminate].
     destruct (sess_step s a) as [[s' d]|]; [|discriminate]. inversion H; subst; clear H. cbn in *.
     destruct d; [|lia]. destruct G' as [Gc _]. cbn in Gc. pose proof (total_nonneg (upd i s' (ss t))). lia.
@@ -340,20 +404,30 @@ Proof.
   - pose proof (IH i s s' H). lia.
 Qed.
 
-(* the accept goroutine's step consumes a waiting connection *)
-Definition MU (t : st) : nat := (Mu (ss t) + 3 * pend t)%nat.   (* a waiting connection may still become a session with its two loops *)
+(* the accept goroutine's steps: a successful Accept consumes a waiting connection (which may become a session with
+   its two loops, and gives the loop its full number of retries back), a failing one consumes a retry *)
+Definition loop_budget (a : aloopst) : nat := if aloop a then S (amax a - aretry a) else 0%nat.
+Definition MU (t : st) : nat := (Mu (ss t) + (amax (al t) + 4) * pend t + loop_budget (al t))%nat.
 Lemma Mu_app a b : Mu (a ++ b) = (Mu a + Mu b)%nat.
 Proof. induction a as [|s a IH]; cbn; lia. Qed.
 
 Theorem internal_step_decreases t l t' : internal l = true -> step t l = Some t' -> (MU t' < MU t)%nat.
 Proof.
-  intros Il H. unfold MU. destruct l as [| |i|i a]; try discriminate.
-  - cbn [step] in H. destruct (Nat.eqb i (length (ss t)) && negb (Nat.eqb (pend t) 0)) eqn:E; [|discriminate].
-    apply andb_prop in E as [_ E]. apply negb_true_iff, Nat.eqb_neq in E.
-    destruct (maxc t <=? cnt t); inversion H; subst; clear H; cbn; rewrite Mu_app; cbn; lia.
+  intros Il H. unfold MU, loop_budget. destruct l as [| |i| | | | |i a]; try discriminate.
+  - cbn [step] in H. destruct (Nat.eqb i (length (ss t)) && negb (Nat.eqb (pend t) 0) && aloop (al t) && negb (fdlim (al t))) eqn:E; [|discriminate].
+    apply andb_prop in E as [E _]. apply andb_prop in E as [E El]. apply andb_prop in E as [_ E]. apply negb_true_iff, Nat.eqb_neq in E.
+    destruct (pend t) as [|p] eqn:Ep; [congruence|].
+    destruct (maxc t <=? cnt t); inversion H; subst; clear H; cbn [ss pend al set_aretry amax aloop aretry Nat.pred];
+      rewrite Mu_app, El, Nat.mul_succ_r; cbn [Mu mu rejected fresh q sendl recvl length b2n]; generalize ((amax (al t) + 4) * p)%nat; intros X; unfold mu, rejected, fresh; cbn [q sendl recvl length b2n]; lia.
+  - cbn [step] in H. destruct (negb (Nat.eqb (pend t) 0) && aloop (al t) && fdlim (al t)) eqn:E; [|discriminate].
+    apply andb_prop in E as [E _]. apply andb_prop in E as [_ El].
+    inversion H; subst; clear H. cbn [ss pend al]. rewrite El.
+    destruct (Nat.leb (amax (al t)) (S (aretry (al t)))) eqn:Em; cbn [set_aloop set_aretry amax aloop aretry].
+    + lia.
+    + apply Nat.leb_gt in Em. rewrite ?El. generalize ((amax (al t) + 4) * pend t)%nat; intros X. lia.
   - cbn in Il. cbn [step] in H.
     destruct (nth_error (ss t) i) as [s|] eqn:En; [|discriminate]. destruct (started s); [|discriminate].
-    destruct (sess_step s a) as [[s' d]|] eqn:Es; [|discriminate]. inversion H; subst; clear H. cbn.
+    destruct (sess_step s a) as [[s' d]|] eqn:Es; [|discriminate]. inversion H; subst; clear H. cbn [ss pend al].
     pose proof (internal_decreases _ _ _ _ Il Es). pose proof (Mu_upd _ _ _ s' En). lia.
 Qed.
 
@@ -365,4 +439,46 @@ Proof.
   - inversion H; subst. lia.
   - apply andb_prop in Hi as [H1 H2]. destruct (step t l) as [t1|] eqn:E; [|discriminate].
     pose proof (internal_step_decreases _ _ _ H1 E). pose proof (IH _ _ H2 H). lia.
+Qed.
+
+(* ---- the accept loop ends only through Server.Close or after acceptMaxRetry temporary errors in a row ---- *)
+Definition is_fail (l : label) : bool := match l with AcceptFail => true | _ => false end.
+Definition count_fail (ls : list label) : nat := length (filter is_fail ls).
+Definition is_srvclose (l : label) : bool := match l with SrvClose => true | _ => false end.
+
+Lemma step_aretry t l t' : step t l = Some t' ->
+  (aretry (al t') <= aretry (al t) + (if is_fail l then 1 else 0))%nat /\ (is_srvclose l = false -> sclosed (al t') = sclosed (al t)).
+Proof.
+  intros H. destruct l as [i trp reads h0|i|i| | | | |i a]; cbn [step] in H; cbn [is_fail is_srvclose].
+  - destruct (Nat.eqb i (length (ss t)) && Nat.eqb (pend t) 0); [|discriminate]. inversion H; subst; cbn. split; [lia|auto].
+  - destruct (Nat.eqb i (length (ss t) + pend t)); [|discriminate]. inversion H; subst; cbn. split; [lia|auto].
+  - destruct (Nat.eqb i (length (ss t)) && negb (Nat.eqb (pend t) 0) && aloop (al t) && negb (fdlim (al t))); [|discriminate].
+    destruct (maxc t <=? cnt t); inversion H; subst; cbn; (split; [lia|auto]).
+  - destruct (negb (Nat.eqb (pend t) 0) && aloop (al t) && fdlim (al t)); [|discriminate]. inversion H; subst; cbn.
+    destruct (Nat.leb (amax (al t)) (S (aretry (al t)))); cbn; (split; [lia|auto]).
+  - destruct (fdlim (al t)); [discriminate|]. inversion H; subst; cbn. split; [lia|auto].
+  - destruct (fdlim (al t)); [|discriminate]. inversion H; subst; cbn. split; [lia|auto].
+  - destruct (Nat.eqb (pend t) 0); [|discriminate]. inversion H; subst; cbn. split; [lia|discriminate].
+  - destruct (nth_error (ss t) i) as [s|]; [|discriminate]. destruct (started s); [|discriminate].
+    destruct (sess_step s a) as [[s' d]|]; [|discriminate]. inversion H; subst; cbn. split; [lia|auto].
+Qed.
+
+Lemma run_aretry ls : forall t t', run t ls = Some t' ->
+  (aretry (al t') <= aretry (al t) + count_fail ls)%nat /\ (existsb is_srvclose ls = false -> sclosed (al t') = sclosed (al t)).
+Proof.
+  induction ls as [|l ls IH]; intros t t' H; cbn in H.
+  - inversion H; subst. cbn. split; [lia|auto].
+  - destruct (step t l) as [t1|] eqn:E; [|discriminate]. destruct (step_aretry _ _ _ E) as [A B]. destruct (IH _ _ H) as [A' B'].
+    unfold count_fail in *. cbn [filter existsb]. split.
+    + destruct (is_fail l); cbn [length]; lia.
+    + intros X. apply orb_false_elim in X as [X1 X2]. rewrite (B' X2). exact (B X1).
+Qed.
+
+Theorem loop_death_needs_retries c0 t ls t' : GInv c0 t -> aloop (al t) = true -> pend t = 0%nat -> run t ls = Some t' ->
+  aloop (al t') = false -> existsb is_srvclose ls = false -> (amax (al t) <= count_fail ls)%nat.
+Proof.
+  intros G Al P H D NS. destruct (run_ginv c0 ls _ _ G H) as [G' _]. destruct (run_aretry ls _ _ H) as [A B].
+  pose proof (g_al _ _ G) as [_ Ac Af]. pose proof (g_al _ _ G') as [Ad' _ _].
+  rewrite (Af Al P) in A. rewrite <- (run_amax ls _ _ H).
+  destruct (Ad' D) as [X|X]; [|lia]. rewrite (B NS) in X. rewrite (Ac X) in Al. discriminate.
 Qed.
